@@ -643,6 +643,7 @@ func (w *world) runClient(c *client) {
 	for _, tx := range c.txs {
 		wasOpen := openTx
 		openTx = false
+		nestedOpened := false
 		stray := func(at int) bool {
 			if tx.Stray == "" || tx.StrayAt != at {
 				return true
@@ -722,7 +723,9 @@ func (w *world) runClient(c *client) {
 		case endNoopThenData:
 			cl.Cmd("NOOP")
 		case endNestedMailThenData:
-			cl.Cmd("MAIL FROM:<other@origin.example>")
+			// (accepted when this transaction's own MAIL had been refused: it
+			// then opens a transaction of its own)
+			nestedOpened = cl.Cmd("MAIL FROM:<other@origin.example>").OK()
 		case endEhloMidTx:
 			// a second EHLO/LHLO resets the protocol state (RFC 5321 4.1.4)
 			s.Stat("client_ehlo_mid_transaction")
@@ -761,7 +764,7 @@ func (w *world) runClient(c *client) {
 			// nothing was accepted: some clients simply start over
 			s.Stat("client_next_mail_without_reset")
 			tx.Done = true
-			openTx = wasOpen || tx.MailReply.OK()
+			openTx = wasOpen || tx.MailReply.OK() || nestedOpened
 			continue
 		}
 		if tx.Pause {
